@@ -323,11 +323,21 @@ Theorem C17_dry_run_spellings_refuted_when :
   Loader.d_dry_truthy LoaderGen.impl = false ->
   Loader.load_dry LoaderGen.impl (Some (Loader.YInt 1)) = false /\ Loader.truthy (Loader.YInt 1) = true.
 Proof. apply Proofs.Loader.dry_identity_refuted. Qed.
+(* composed with the gate: a request whose run-space block is WRITTEN with a truthy dry_run executes nothing *)
+Theorem C17_written_dry_run_executes_nothing : forall r raw y,
+  Loader.r_dry raw = Some y -> Loader.truthy y = true ->
+  rs_dry r = snd (Loader.load LoaderGen.impl raw) ->
+  no_exec (snd (cli knobs r)).
+Proof.
+  intros r raw y Hy Ht Hr. apply (C17_run_space_dry_run r).
+  rewrite Hr. unfold Loader.load; simpl. rewrite Hy, C17_dry_run_spellings. exact Ht.
+Qed.
 Example ex_dry_spellings :
   map (fun y => Loader.load_dry LoaderGen.impl (Some y)) [Loader.YBool true; Loader.YInt 1; Loader.YStr "yes"; Loader.YInt 0; Loader.YStr ""; Loader.YNull; Loader.YBool false]
   = [true; true; true; false; false; false; false].
 Proof. reflexivity. Qed.
 Print Assumptions C17_dry_run_spellings.
+Print Assumptions C17_written_dry_run_executes_nothing.
 Print Assumptions C17_full.
 Print Assumptions C17_reject_no_effect.
 Print Assumptions C17_reject_exact.
